@@ -57,6 +57,9 @@ def run_schedule(sched, interval, events, values0, burn=None, dns=0):
     def do(inp):
         op = inp["op"]
         ev = {k: x for k, x in inp.items() if k not in ("t", "j", "form")}
+        if op == "eg_notify":
+            inp = dict(inp, form=inp.get("form", "iter" if inp.get("oneshot") else "list"))
+            ev["oneshot"] = inp["form"] in ("iter", "gen")
         rec.emit(k="in", **ev)
         try:
             if op == "eg_create":
